@@ -136,5 +136,5 @@ def gen_lines(n, seed):
     import multiprocessing as mp
     rng = random.Random(seed)
     jobs = [(rng.randrange(2**31), i) for i in range(n)]
-    with mp.get_context("fork").Pool(common.NCPU) as pool:
+    with common.pool(common.NCPU) as pool:
         return pool.map(_one, jobs)
